@@ -82,6 +82,22 @@ pub struct Spec {
 
 const ALL_T: &[&str] = &["C01", "C02", "C03", "C04", "C06", "C07", "C08", "C09", "C11"];
 
+/// What the blob decrypts to under its dispute's id, as known from how the harness made it (the listed blob kinds);
+/// only a blob of unknown make falls back on the implementation's `decrypt`.
+fn spec_decrypt(k: u8, blob: &[u8], d_txid: &Txid) -> Result<Txid, ()> {
+    use crate::world::Blob;
+    let mut kinds = vec![Blob::Valid, Blob::Alt, Blob::Large, Blob::Bad, Blob::WrongKey, Blob::NonTx, Blob::TxPlusTrailing];
+    if blob.len() <= u16::MAX as usize {
+        kinds.push(Blob::Raw(blob.len() as u16));
+    }
+    for kind in kinds {
+        if crate::world::make_blob(k, kind) == blob {
+            return crate::world::expected_plain(k, kind).ok_or(());
+        }
+    }
+    cryptography::decrypt(blob, d_txid).map(|p| p.compute_txid()).map_err(|_| ())
+}
+
 fn locator_of(disp: u8) -> Locator {
     Locator::new(txid_of(TxName::D(disp)))
 }
@@ -618,9 +634,8 @@ impl Spec {
             self.appts.insert((u, k), new);
             return;
         }
-        match cryptography::decrypt(&appt.encrypted_blob, &d_txid) {
-            Ok(p) => {
-                let ptxid = p.compute_txid();
+        match spec_decrypt(k, &appt.encrypted_blob, &d_txid) {
+            Ok(ptxid) => {
                 match self.penalty_verdict(&rpcs, &ptxid, w) {
                     None => {
                         out.push(Viol {
@@ -868,9 +883,8 @@ impl Spec {
                             continue;
                         }
                         let slots = slots_for(a.blob.len());
-                        match cryptography::decrypt(&a.blob, &d_txid) {
-                            Ok(p) => {
-                                let ptxid = p.compute_txid();
+                        match spec_decrypt(k, &a.blob, &d_txid) {
+                            Ok(ptxid) => {
                                 breach_penalties.push(ptxid);
                                 match self.penalty_verdict(&rpcs, &ptxid, w) {
                                     None => out.push(Viol {
